@@ -137,7 +137,8 @@ def finish(check, tier, started, extra=None, out=sys.stdout):
             else:
                 violations.append(fnd)
 
-    evdir = os.path.join(VERIF, 'evidence')
+    # scratch runs (seed matrix, self-test variants) must not overwrite the evidence of the real tree
+    evdir = os.environ.get('VERIF_EVIDENCE_DIR') or os.path.join(VERIF, 'evidence')
     os.makedirs(os.path.join(evdir, 'replay'), exist_ok=True)
 
     print('== {} ({}) on {} =='.format(prop, tier, check.tree.root), file=out)
